@@ -48,7 +48,7 @@ static bool gen_c19(uint64_t seed, const std::string &tier, uint64_t i, Plan &p)
   if (popup) {
     int pre = (int)r.range(0, 4); for (int q = 0; q < pre; q++) cmd(r.pick(std::vector<std::string>{"STAT", "LIST", "RETR 1", "DELE 1", "NOOP", "USER", "PASS x", "UIDL", "XYZ", "TOP 1 1", "RSET"}));
     if (r.chance(0.2)) { cmd("QUIT"); p.label = "popup quit before auth"; return true; }
-    std::string pass = r.pick(std::vector<std::string>{"secret", "pw with spaces", "wrong", "crash", "p\xc3\xa4ss"});
+    std::string pass = r.pick(std::vector<std::string>{"secret", "pw with spaces", "wrong", "crash", "p\xc3\xa4ss", "long" + std::string(507, 'p') + " DELE 1 tail", std::string(1100, 'q')});   // (the last two: credentials longer than any buffer size one might guess; they must arrive verbatim)
     if (r.chance(0.7)) { cmd("USER " + r.pick(std::vector<std::string>{"user1", "User One", "u"})); cmd("PASS " + pass); } else cmd("APOP user1 " + r.pick(std::vector<std::string>{"0123456789abcdef0123456789abcdef", "wrong"}));
   }
   cmd("UIDL");   // fixes the numbering for the reference model
@@ -62,6 +62,9 @@ static bool gen_c19(uint64_t seed, const std::string &tier, uint64_t i, Plan &p)
     else if (c < 12) l = "LIST" + (r.chance(0.5) ? std::string() : " " + p_arg(r, eligible));
     else if (c < 14) l = "UIDL" + (r.chance(0.5) ? std::string() : " " + p_arg(r, eligible));
     else if (c == 14) l = "STAT"; else if (c == 15) l = "RSET"; else if (c == 16) l = r.pick(std::vector<std::string>{"NOOP", "LAST", "noop", "Stat"});
+    else if (c == 17 && r.chance(0.5)) {   // one over-long command line whose tail spells another command: one line is one command, whatever its length
+      std::string head = r.pick(std::vector<std::string>{"NOOP", "STAT", "XYZZY", "noop"}); size_t pad = (size_t)r.pick(std::vector<int>{250, 500, 507, 508, 509, 1019, 1020, 1021, 3000});
+      l = head + std::string(pad, ' ') + r.pick(std::vector<std::string>{"DELE 1 ", "QUIT", "RSET", "DELE 2"}); }
     else if (c == 17) l = r.pick(std::vector<std::string>{"XYZZY", "", "USER x", "PASS y", "RETR", "DELE", "TOP", "retr 1"});
     else l = "RETR " + std::to_string(eligible ? 1 + (int)r.below((uint64_t)eligible) : 1);
     cmd(l);
